@@ -220,6 +220,8 @@ def gen_machine(rng):
         "measure": (meas := rng.choice(["sad", "ssd", "census", "zncc"])), "window": 3 if meas == "census" else rng.choice([1, 3]),
         "subpix": rng.choice([1, 2, 4]), "invalid_cfg": enc_invalid(rng.choice(INVALIDS)),
         "with_right": rng.random() < 0.6,
+        # seed C03-5: one machine object used for two runs whose disparity steps name different invalid values
+        **({"prior_invalid_cfg": enc_invalid(rng.choice(INVALIDS))} if rng.random() < 0.4 else {}),
     }
 
 
@@ -354,7 +356,10 @@ def run_machine_case(ctx, report, case, compare_model=True):
     inv_cfg = dec_invalid(case["invalid_cfg"])
     tot = {"with_cost": 0, "all_nan": 0, "ties": 0}
     try:
-        sides = wta.run_machine(il, ir, case["measure"], case["window"], case["subpix"], inv_cfg, case["with_right"])
+        prior = dec_invalid(case["prior_invalid_cfg"]) if "prior_invalid_cfg" in case else wta.NO_PRIOR
+        if prior is not wta.NO_PRIOR:
+            report.count("machine_used_before_with_another_invalid_value")
+        sides = wta.run_machine(il, ir, case["measure"], case["window"], case["subpix"], inv_cfg, case["with_right"], prior)
     except wta.MatchingCostFailed as exc:
         report.count("machine_skipped_matching_cost_raised")
         if len(report.notes) < 5:
